@@ -24,7 +24,8 @@ EXTENDS Sequences, Naturals, FiniteSets, TLC, Json
 Trace == ndJsonDeserialize("trace.ndjson")
 
 SvcDom == {<<"4chan", "org">>, <<"4cdn", "org">>, <<"4channel", "org">>}
-INSTANCE DnsPipelineCore WITH SvcDomains <- SvcDom
+Svc2Dom == {<<"9gag", "com">>, <<"9cache", "com">>}
+INSTANCE DnsPipelineCore WITH SvcDomains <- SvcDom, Svc2Domains <- Svc2Dom
 
 VARIABLES l, cur, bad
 
